@@ -438,7 +438,7 @@ def listbox_task(task, ctx: Ctx):
 # ScrollBar over a ListBox: histories with keys, wheel, resizes and content changes made in place
 # ----------------------------------------------------------------------
 LB_SIZES = [(6, 3), (6, 5), (4, 2), (7, 8)]
-LB_KINDS = ["txt3", "mixed", "icons6", "icons9"]
+LB_KINDS = ["txt3", "mixed", "icons6", "icons9", "wrap5"]
 LB_BARS = [("right", 1), ("left", 2)]
 LB_KEYS = ["up", "down", "page up", "page down", "home", "end", "enter"]
 
@@ -453,6 +453,9 @@ def lb_items(kind):
         return [urwid.SelectableIcon(f"r{i}", 0) for i in range(6)]
     if kind == "icons9":
         return [urwid.SelectableIcon(f"s{i}", 0) for i in range(9)]
+    if kind == "wrap5":
+        # texts exactly as wide as the (6- and 4-column) views: they wrap into more rows once the bar has taken its columns
+        return [T("a0a1a2"), T("b0b1"), urwid.SelectableIcon("c0", 0), T("d0d1d2"), T("e0e1")]
     raise AssertionError(kind)
 
 
@@ -535,6 +538,8 @@ class LbSpec:
         out.append(("append",))
         if n > 1:
             out.append(("pop",))
+        if n:
+            out.append(("clear",))
         return out
 
     def judge(self, cfg, st: LbSt, ctx: Ctx, case):
@@ -627,6 +632,8 @@ class LbSpec:
                 st.walker.append(urwid.SelectableIcon(f"x{st.extra}", 0))
             elif op[0] == "pop":
                 st.walker.pop()
+            elif op[0] == "clear":
+                del st.walker[:]
         except Exception as e:
             ctx.violation("event-raises", f"C20/event-raises/listbox/{kind}/{exc_site(e)}", case, f"{op!r} raised {type(e).__name__}: {e}")
             return False
